@@ -37,23 +37,36 @@ VARIABLES
   ctlRun,     \* n of the control request whose handler runs (0 = none)
   ctlBuf,     \* control requests parked in the BufferService: Seq of [n, kind, id]
   nextH, narr,
-  mon, hist
+  mon, hist,
+  pred        \* events emitted by the last action (conformance: compared with the recorded ones); not in the VIEW
 
-vars == <<alive, ioq, inline, ids, q2rec, gates, ctlRun, ctlBuf, nextH, narr, mon, hist>>
+vars == <<alive, ioq, inline, ids, q2rec, gates, ctlRun, ctlBuf, nextH, narr, mon, hist, pred>>
 view == <<alive, ioq, inline, ids, q2rec, gates, ctlRun, ctlBuf, nextH, narr, mon>>
 
 E(e, k, s, id, q, r, n, x) == [e |-> e, k |-> k, s |-> s, id |-> id, q |-> q, r |-> r, n |-> n, x |-> x]
 Quiet == E("quiet", "alive", 0, 0, 0, 0, 0, "")
+Emit(evs) == mon' = Mon!StepAll(mon, evs) /\ pred' = evs
+
+InitMon == Mon!StepAll(Mon!Init,
+            << E("reset", Role, 0, 0, Ver, 0, 0, Role),
+               IF Role = "server" THEN E("out", "CONNACK", 0, 0, 0, 0, 0, "")
+                                  ELSE E("connected", "", 0, 0, 0, 0, 0, "") >>)
+InitH == IF Role = "server" THEN 2 ELSE 1       \* the handshake handler was h = 1
 
 Init ==
   /\ alive = TRUE /\ ioq = << >> /\ inline = 0 /\ ids = {} /\ q2rec = {} /\ gates = << >>
   /\ ctlRun = 0 /\ ctlBuf = << >> /\ narr = 0
-  /\ nextH = IF Role = "server" THEN 2 ELSE 1       \* the handshake handler was h = 1
-  /\ mon = Mon!StepAll(Mon!Init,
-            << E("reset", Role, 0, 0, Ver, 0, 0, Role),
-               IF Role = "server" THEN E("out", "CONNACK", 0, 0, 0, 0, 0, "")
-                                  ELSE E("connected", "", 0, 0, 0, 0, 0, "") >>)
-  /\ hist = << >>
+  /\ nextH = InitH
+  /\ mon = InitMon
+  /\ hist = << >> /\ pred = << >>
+
+\* the same as an action (trace validation starts every recorded run from here)
+Reset ==
+  /\ alive' = TRUE /\ ioq' = << >> /\ inline' = 0 /\ ids' = {} /\ q2rec' = {} /\ gates' = << >>
+  /\ ctlRun' = 0 /\ ctlBuf' = << >> /\ narr' = 0
+  /\ nextH' = InitH
+  /\ mon' = InitMon
+  /\ hist' = << >> /\ pred' = << >>
 
 None == [k |-> "NONE", id |-> 0, rc |-> 0]        \* Ok(None)
 Pend == [k |-> "PEND", id |-> 0, rc |-> 0]        \* ServiceResult::Pending
@@ -91,7 +104,7 @@ DiscEv(rc) == IF Ver = 5 THEN << E("out", "DISCONNECT", 0, 0, 0, rc, 0, "") >> E
 
 Stop(pre, kind, rc) ==
   /\ alive' = FALSE
-  /\ mon' = Mon!StepAll(mon, pre \o StopEvs(kind) \o DiscEv(rc) \o <<Quiet>>)
+  /\ Emit(pre \o StopEvs(kind) \o DiscEv(rc) \o <<Quiet>>)
   /\ UNCHANGED <<ioq, inline, ids, q2rec, gates, ctlRun, ctlBuf>>
   /\ nextH' = nextH + 1
 
@@ -128,13 +141,13 @@ Immediate(n, r, pre, hUsed) ==
          /\ ioq' = h[1] /\ UNCHANGED inline
          /\ alive' = (h[3] = "none")
          /\ nextH' = nextH + hUsed + (IF h[3] = "none" THEN 0 ELSE 1)
-         /\ mon' = Mon!StepAll(mon, pre \o h[2] \o AfterErrAt(h[3], nextH + hUsed) \o <<Quiet>>)
+         /\ Emit(pre \o h[2] \o AfterErrAt(h[3], nextH + hUsed) \o <<Quiet>>)
     ELSE IF ioq = << >>
       THEN /\ UNCHANGED <<ioq, inline>> /\ alive' = TRUE /\ nextH' = nextH + hUsed
-           /\ mon' = Mon!StepAll(mon, pre \o WriteEvs(r) \o <<Quiet>>)
+           /\ Emit(pre \o WriteEvs(r) \o <<Quiet>>)
       ELSE /\ ioq' = Append(ioq, [n |-> n, r |-> r]) /\ UNCHANGED inline
            /\ alive' = TRUE /\ nextH' = nextH + hUsed
-           /\ mon' = Mon!StepAll(mon, pre \o <<Quiet>>)
+           /\ Emit(pre \o <<Quiet>>)
 
 \* a request whose result is an error inside the call: protocol violation or handler failure
 ImmediateErr(n, kind, rc, pre, hUsed) ==
@@ -142,11 +155,11 @@ ImmediateErr(n, kind, rc, pre, hUsed) ==
     THEN \* state.error is set at once: the dispatcher stops
          /\ alive' = FALSE /\ nextH' = nextH + hUsed + 1
          /\ UNCHANGED <<ioq, inline>>
-         /\ mon' = Mon!StepAll(mon, pre \o StopEvsAt(kind, nextH + hUsed) \o DiscEv(rc) \o <<Quiet>>)
+         /\ Emit(pre \o StopEvsAt(kind, nextH + hUsed) \o DiscEv(rc) \o <<Quiet>>)
     ELSE \* the error waits in the ordered queue behind the pending responses
          /\ ioq' = Append(ioq, [n |-> n, r |-> ErrRec(kind)]) /\ UNCHANGED inline
          /\ alive' = TRUE /\ nextH' = nextH + hUsed
-         /\ mon' = Mon!StepAll(mon, pre \o <<Quiet>>)
+         /\ Emit(pre \o <<Quiet>>)
 
 ----------------------------------------------------------------------------
 \* In(kind, id, imm, outcome): the peer writes one packet.  Every branch defines
@@ -184,7 +197,7 @@ InPub(q, id, imm, outcome) ==
                 /\ gates' = Append(gates, [h |-> h, n |-> n, kind |-> "pub", id |-> id, q |-> q])
                 /\ ids' = IF q > 0 THEN ids \cup {id} ELSE ids
                 /\ Enqueue(n)
-                /\ mon' = Mon!StepAll(mon, <<inEv, hs, Quiet>>)
+                /\ Emit(<<inEv, hs, Quiet>>)
                 /\ UNCHANGED <<q2rec, ctlRun, ctlBuf>>
 
 \* a protocol-control request (pubrel / sub / unsub / ping) reaches the control pipeline
@@ -205,13 +218,13 @@ CtlArrive(n, kind, id, inEv) ==
            /\ Enqueue(n)
            /\ ids' = IF kind \in {"sub", "unsub"} THEN ids \cup {id} ELSE ids
            /\ q2rec' = IF kind = "pubrel" THEN q2rec \ {id} ELSE q2rec
-           /\ mon' = Mon!StepAll(mon, <<inEv, E("h_start", kind, h, IF Ver = 5 /\ kind # "ping" THEN id ELSE 0, 0, 0, 0, ""), Quiet>>)
+           /\ Emit(<<inEv, E("h_start", kind, h, IF Ver = 5 /\ kind # "ping" THEN id ELSE 0, 0, 0, 0, ""), Quiet>>)
            /\ UNCHANGED ctlBuf
       ELSE /\ ctlBuf' = Append(ctlBuf, [n |-> n, kind |-> kind, id |-> id])
            /\ Enqueue(n) /\ alive' = TRUE
            /\ ids' = IF kind \in {"sub", "unsub"} THEN ids \cup {id} ELSE ids
            /\ q2rec' = IF kind = "pubrel" THEN q2rec \ {id} ELSE q2rec
-           /\ mon' = Mon!StepAll(mon, <<inEv, Quiet>>)
+           /\ Emit(<<inEv, Quiet>>)
            /\ UNCHANGED <<gates, ctlRun, nextH>>
 
 InOther(kind, id) ==
@@ -261,10 +274,13 @@ Complete(gi, outcome) ==
                     ELSE outcome # "ok"
      IN
      IF fails
-       THEN \* handler failure: handle_result(Err) sets state.error at once -> Control::Stop(Error)
-            /\ alive' = FALSE /\ gates' = rest /\ nextH' = nextH + 1
-            /\ mon' = Mon!StepAll(mon, <<he>> \o StopEvs("stop_error") \o DiscEv(131) \o <<Quiet>>)
-            /\ UNCHANGED <<ioq, inline, ids, q2rec, ctlRun, ctlBuf>>
+       THEN \* handler failure: handle_result(Err) sets state.error -> Control::Stop(Error); when the failed
+            \* request is the oldest one, the responses that were ready behind it are still written
+            LET h == IF ioq # << >> /\ Head(ioq).n = g.n THEN Drain(Tail(ioq), << >>, "stop_error")
+                                                          ELSE <<ioq, << >>, "stop_error">> IN
+            /\ alive' = FALSE /\ gates' = rest /\ nextH' = nextH + 1 /\ ioq' = h[1]
+            /\ Emit(<<he>> \o h[2] \o StopEvs(h[3]) \o DiscEv(IF h[3] = "stop_proto" THEN 130 ELSE 131) \o <<Quiet>>)
+            /\ UNCHANGED <<inline, ids, q2rec, ctlRun, ctlBuf>>
      ELSE IF g.kind = "pub"
        THEN LET r == PubResp(g.q, g.id, outcome, code)
                 h == HandleOk(ioq, g.n, r) IN
@@ -274,7 +290,7 @@ Complete(gi, outcome) ==
             /\ q2rec' = IF g.q = 2 /\ outcome = "ok" THEN q2rec \cup {g.id} ELSE q2rec
             /\ alive' = (h[3] = "none")
             /\ nextH' = IF h[3] = "none" THEN nextH ELSE nextH + 1
-            /\ mon' = Mon!StepAll(mon, <<he>> \o h[2] \o AfterErrAt(h[3], nextH) \o <<Quiet>>)
+            /\ Emit(<<he>> \o h[2] \o AfterErrAt(h[3], nextH) \o <<Quiet>>)
             /\ UNCHANGED <<ctlRun, ctlBuf>>
      ELSE \* protocol-control handler (sequential pipeline on the server)
             LET r == CtlRespOf(g.kind, g.id)
@@ -290,12 +306,12 @@ Complete(gi, outcome) ==
                  THEN /\ ctlRun' = (IF ctlRun = g.n THEN 0 ELSE ctlRun) /\ gates' = rest
                       /\ UNCHANGED ctlBuf
                       /\ nextH' = IF stop THEN nextH + 1 ELSE nextH
-                      /\ mon' = Mon!StepAll(mon, <<he>> \o h[2] \o AfterErrAt(h[3], nextH) \o <<Quiet>>)
+                      /\ Emit(<<he>> \o h[2] \o AfterErrAt(h[3], nextH) \o <<Quiet>>)
                  ELSE \* the next parked control request is released and its handler starts
                       LET nx == Head(ctlBuf) IN
                       /\ ctlRun' = nx.n /\ ctlBuf' = Tail(ctlBuf) /\ nextH' = nextH + 1
                       /\ gates' = Append(rest, [h |-> nextH, n |-> nx.n, kind |-> nx.kind, id |-> nx.id, q |-> 0])
-                      /\ mon' = Mon!StepAll(mon, <<he>> \o h[2] \o
+                      /\ Emit(<<he>> \o h[2] \o
                                   <<E("h_start", nx.kind, nextH, IF Ver = 5 /\ nx.kind # "ping" THEN nx.id ELSE 0, 0, 0, 0, ""), Quiet>>)
   /\ UNCHANGED narr
   /\ hist' = Append(hist, "c" \o ToString(gates[gi].h) \o ":" \o outcome)
